@@ -1,6 +1,10 @@
 import SafeC.Proofs.SortRel
 import SafeC.Proofs.Bsearch
 import SafeC.Proofs.SortSafe
+import SafeC.Proofs.SortWhole
+import SafeC.Proofs.SortCycle
+import SafeC.Proofs.SortSorted
+import SafeC.Proofs.SortGap64
 /-!
 # C16 — "qsort_s sorts and bsearch_s finds, for every array and comparator"
 
@@ -50,19 +54,100 @@ example : (match qsortChk unrepaired ⟨fun _ _ _ _ _ => 1, 0, true⟩ (okArgs 5
     | .error _ => false) = true := by decide +kernel
 
 
-/-! ## (3) bounds of qsort_s — what is proved, and what is not
+/-! ## (3) bounds and termination of qsort_s — every comparator
 
-NOT PROVED (full statements; they need the forest-shape invariant of smoothsort: the set bits of `p`, shifted by
-`pshift`, are the orders of Leonardo trees that tile `[0, head]` exactly):
+The smoothsort forest-shape invariant (`Shape`, Proofs/SortShape.lean): the set bits of the two-word vector `p`, read
+relative to `pshift`, are the orders of Leonardo trees (strictly ascending, from the second on at least 2 apart,
+`pshift = 0` only next to a tree of order 1) that tile `[0, head]` exactly, the smallest rooted at `head`.  It holds
+initially (`Shape.init`), is preserved by the three cases of the main loop (`Shape.merge`, `Shape.single` for a new tree of
+order 0 resp. 1) and by the dismantling loop (`Shape.drop`, `Shape.split`); `sift` and `trinkle` walk only inside the trees
+it describes (`sift_in_tree_safe`, `trinkle_safe`), the dismantling loop ends exactly at `head = 0` (`Shape.done_of_zero`).
+The model has no fuel: its loops recurse on the free entries of `ar[]`, on `high - head` and on `head`, so a run that
+returns `.ok` is a run in which the C terminates, never indexes outside `[0, nmemb)`, never forms a pointer below
+`base`, and overruns neither `lp[]` nor `ar[]`.
 
-  theorem qsort_safe (c : Cmp α) (g : Args) (s : St α) (fx) (hfx : fx.ctz64 = true) (hv : the entry checks pass)
-      (hn : g.nmemb = s.a.size) (hw : g.nmemb * g.size ≤ 2 ^ 63) : ∃ o, qsortChk fx c g s = .ok o
-  theorem qsort_safe_partial … (fx.ctz64 = false) (hn' : g.nmemb ≤ 18454929) : ∃ o, qsortChk fx c g s = .ok o
-  theorem qsort_sorted (cmp a total preorder) … : the result is ordered (needs, on top: heap order in every tree, ascending roots)
+FULL statement — FALSE of the model (and of the C) beyond 55 555 780 070 575 elements, see `qsort_safe_witness`:
 
-Until then, "no access outside nmemb*size bytes", termination and sortedness of qsort_s rest on the correspondence
-(guard pages on both sides in the harness = `Fault` in the model, compared on every input) and on the oracle.
-Proved below: the two building blocks that touch the array stay inside it, for every comparator. -/
+  theorem qsort_safe (fx) (hfx : fx.ctz64 = true) (c : Cmp α) (g : Args) (s : St α) (hn : g.nmemb = s.a.size)
+      (h63 : g.nmemb * g.size ≤ 2 ^ 63) (h3 : 3 * g.size < 2 ^ 64) : ∃ o, qsortChk fx c g s = .ok o
+
+-/
+
+/-- (3) `_qsort_s_chk` on an array of exactly `nmemb` elements, EVERY comparator (inconsistent ones included), both codes:
+    the call returns (terminates; every element index `< nmemb`; no pointer below `base`; `lp[]`, `ar[]` within capacity)
+    and keeps the element count.  Hypotheses the proof forces: the byte size fits 63 bits and `3*size` fits 64 bits (the
+    table loop computes `lp[i-2] + lp[i-1] + width` before comparing it with `nmemb*size`), and `nmemb ≤ safeBound fx`
+    = `leo 65` = 55 555 780 070 575 for the repaired `ntz`, `leo 34` = 18 454 929 for the `int` builtin (up to there
+    every `pntz` answer is right). -/
+theorem qsort_safe_partial (fx : Fixes) (c : Cmp α) (g : Args) (s : St α) (hn : g.nmemb = s.a.size)
+    (h63 : g.nmemb * g.size ≤ 2 ^ 63) (h3 : 3 * g.size < 2 ^ 64) (hb : g.nmemb ≤ safeBound fx) :
+    ∃ o, qsortChk fx c g s = .ok o ∧ o.st.a.size = s.a.size := by
+  have hrun : ∃ o, (do let s' ← qsortMusl fx c s g.nmemb g.size; pure (⟨EOK, none, [], s'⟩ : Out α Nat)) = .ok o ∧
+      o.st.a.size = s.a.size := by
+    obtain ⟨r, hr, hsz⟩ := qsortMusl_safe fx c s g.nmemb g.size hn h63 h3 hb
+    exact ⟨⟨EOK, none, [], r⟩, by rw [hr]; rfl, hsz⟩
+  unfold qsortChk
+  split
+  · exact ⟨_, rfl, rfl⟩
+  · split
+    · split
+      · exact ⟨_, rfl, rfl⟩
+      · exact hrun
+    · split
+      · split
+        · exact ⟨_, rfl, rfl⟩
+        · exact hrun
+      · split
+        · exact ⟨_, rfl, rfl⟩
+        · exact hrun
+
+/-- non-vacuity: 6 elements of 4 bytes -/
+example : (6 : Nat) = (#[5, 3, 9, 1, 2, 8] : Array Nat).size ∧ 6 * 4 ≤ 2 ^ 63 ∧ 3 * 4 < 2 ^ 64 ∧ 6 ≤ safeBound allFixed ∧
+    6 ≤ safeBound unrepaired := by decide
+
+/-- (3, FULL for the branch without a known object size) repaired `ntz`, `basebos == BOS_UNKNOWN`: the function's own
+    `RSIZE_MAX_MEM` checks imply every side condition of `qsort_safe_partial`, so EVERY call on an array of `nmemb`
+    elements — any `nmemb`, any `size`, any comparator, NULL arguments or not — returns and keeps the element count -/
+theorem qsort_safe_bos_unknown (fx : Fixes) (hfx : fx.ctz64 = true) (c : Cmp α) (g : Args) (s : St α)
+    (hbos : g.bos = none) (hn : g.nmemb = s.a.size) : ∃ o, qsortChk fx c g s = .ok o ∧ o.st.a.size = s.a.size := by
+  by_cases hl : g.nmemb > RSIZE_MAX_MEM ∨ g.size > RSIZE_MAX_MEM
+  · unfold qsortChk
+    split
+    · exact ⟨_, rfl, rfl⟩
+    · simp only [hbos]
+      exact ⟨_, rfl, rfl⟩
+  · have h1 : g.nmemb ≤ 268435456 := by unfold RSIZE_MAX_MEM at hl; omega
+    have h2 : g.size ≤ 268435456 := by unfold RSIZE_MAX_MEM at hl; omega
+    refine qsort_safe_partial fx c g s hn ?_ (by omega) (by unfold safeBound; simp only [hfx, if_true]; omega)
+    calc g.nmemb * g.size ≤ 268435456 * 268435456 := Nat.mul_le_mul h1 h2
+      _ ≤ 2 ^ 63 := by decide
+
+example : (okArgs 6 4).bos = none := rfl
+
+/-- witness for the bound of `qsort_safe_partial` (repaired code, and musl upstream): `{1, 1}` with `pshift = 1` is the bit
+    vector of a heap whose two trees have orders 1 and 65, first reached with `leo 65 + 1` = 55 555 780 070 576
+    elements; `pntz` answers 0 instead of 64 (`r = 64 + ntz(p[1])` is 64 and taken for "no bit set"), so `trinkle` shifts by 0 and keeps
+    walking `head - lp[1]` with the same `p`: it never reaches `p == {1,0}` and stops only when the comparator says so — `ar[]` (113
+    entries) is overrun after 112 steps with a comparator that keeps answering "greater" (e.g. a consistent one, new element
+    smaller than the 112 elements below it).  No run of that size can be replayed; the statement here is about `pntz` and the
+    encoding only. -/
+theorem qsort_safe_witness : pntz allFixed ⟨1, 1⟩ = 0 ∧ Rep ⟨1, 1⟩ 1 [1, 65] ∧ leo 65 + 1 = 55555780070576 := by
+  refine ⟨by decide +kernel, ?_, by rw [leo_65]⟩
+  intro i
+  unfold PV.bit
+  by_cases h : i < 64
+  · simp only [h, if_true]
+    show (1 : Nat).testBit i = _
+    rw [tb_one]
+    apply decide_eq_decide.mpr
+    simp only [List.mem_cons, List.not_mem_nil, or_false]
+    omega
+  · simp only [h, if_false]
+    show (1 : Nat).testBit (i - 64) = _
+    rw [tb_one]
+    apply decide_eq_decide.mpr
+    simp only [List.mem_cons, List.not_mem_nil, or_false]
+    omega
 
 /-- `cycle` on at most 112 positions inside the array returns and keeps the size (no `ar[]` overrun, no position `≥ nmemb`) -/
 theorem cycle_safe (s : St α) (ar : List Nat) (h : ∀ y ∈ ar, y < s.a.size) (hl : ar.length ≤ 112) :
@@ -89,6 +174,114 @@ example : leo 3 ≤ 4 + 1 ∧ LpOk #[1, 1, 3, 5, 9] 3 := by
     `qsort_s-ntz-counts-32-bits`). -/
 theorem pntz_witness : pntz unrepaired ⟨2 ^ 33 + 1, 0⟩ = 32 ∧ pntz allFixed ⟨2 ^ 33 + 1, 0⟩ = 33 ∧ leo 34 + 1 = 18454930 := by
   refine ⟨by decide +kernel, by decide +kernel, by decide +kernel⟩
+
+/-- second half of the witness, on the model's `trinkle` itself: in the state `p = {1,1}`, `pshift = 1` (the forest of orders 1 and
+    65 of `qsort_safe_witness`), repaired `ntz`, any array with at least 114 elements below `head`, a comparator that answers
+    "greater" every time: `trinkle` does not return, it runs over the 113 entries of `ar[]` (`Fault.arIdx`) -/
+theorem qsort_safe_overrun_witness (e : Env α) (hfx : e.fx.ctz64 = true) (hcmp : ∀ k i j x y, e.cmp k i j x y = 1)
+    (hlp1 : e.lp[1]? = some 1) (s : St α) (head : Nat) (hh : head < s.a.size) (h113 : 113 ≤ head) :
+    trinkle e s head ⟨1, 1⟩ 1 false = .error .arIdx := trinkle_gap64_overrun e hfx hcmp hlp1 s head hh h113
+
+/-- non-vacuity: 200 elements, head = 150 -/
+example : (150 : Nat) < (Array.replicate 200 (0 : Nat)).size ∧ 113 ≤ 150 ∧ (#[1, 1, 3] : Array Nat)[1]? = some 1 := by
+  refine ⟨by simp, by decide, by decide⟩
+
+/-! ## (5) qsort_s sorts — comparator a total preorder
+
+On top of `Shape`: every tree of the forest heap-ordered (`Heaps`), roots ascending (`Roots`) — during the build phase only
+for the trees the code itself declares final (`RootsFin`: `lp[pshift-1] >= high - head` is a static property of a tree's
+order and root position, and a final tree has only final trees to its left, `fin_step`) —, and in the dismantling loop
+everything right of `head` in its final place (`Dom`).  `sift_spec`: `sift` restores the heap order of one tree given both
+subtrees are heaps; `trinkle_spec`: `trinkle` restores heap order and ascending roots of the whole forest. -/
+
+/-- (5) `_qsort_s_chk` returns EOK on an array of exactly `nmemb` elements of `size > 0` bytes, with a comparator that
+    is a total preorder — its sign depends on the two elements only (`f`), is antisymmetric (`0 ≤ f x y ↔ f y x ≤ 0`, which
+    gives totality and reflexivity) and transitive: the result is ordered, `f a[j] a[i] ≤ 0` for all `j ≤ i`.  Same side
+    conditions as `qsort_safe_partial` (see there and `qsort_safe_witness` for why the element count is bounded); together with
+    `qsort_perm` this is "sorted permutation of the input". -/
+theorem qsort_sorted_partial (fx : Fixes) (c : Cmp α) (f : α → α → Int) (hcmp : ∀ k i j x y, c.cmp k i j x y = f x y)
+    (hanti : ∀ x y, 0 ≤ f x y ↔ f y x ≤ 0) (htrans : ∀ x y z, f x y ≤ 0 → f y z ≤ 0 → f x z ≤ 0)
+    (g : Args) (s : St α) (hn : g.nmemb = s.a.size) (hsz : 0 < g.size) (h63 : g.nmemb * g.size ≤ 2 ^ 63)
+    (h3 : 3 * g.size < 2 ^ 64) (hb : g.nmemb ≤ safeBound fx) (o : Out α Nat) (h : qsortChk fx c g s = .ok o)
+    (hok : o.ret = EOK) :
+    ∀ (i j : Nat) (hi : i < o.st.a.size) (hij : j ≤ i), f (o.st.a[j]'(by omega)) o.st.a[i] ≤ 0 := by
+  intro i j hi hij
+  have hsize : o.st.a.size = s.a.size := qsort_size fx c g s o h
+  have h0 : 0 < s.a.size := by omega
+  haveI : Inhabited α := ⟨s.a[0]⟩
+  have hc : Consistent c.cmp (fun x y => f x y ≤ 0) := by
+    refine ⟨fun x y => ?_, fun {x y z} => htrans x y z, fun k i j x y => by rw [hcmp]; exact hanti x y,
+      fun k i j x y => by rw [hcmp]⟩
+    by_cases hxy : f x y ≤ 0
+    · exact Or.inl hxy
+    · exact Or.inr ((hanti x y).mp (by omega))
+  obtain ⟨r, hr, _, hsorted⟩ := qsortMusl_sorted fx c hc s g.nmemb g.size hn hsz h63 h3 hb
+  have hrun : ∀ o', (do let s' ← qsortMusl fx c s g.nmemb g.size; pure (⟨EOK, none, [], s'⟩ : Out α Nat)) = .ok o' →
+      o'.st = r := by
+    intro o' ho'
+    rw [hr] at ho'
+    cases ho'
+    rfl
+  have hst : o.st = r := by
+    unfold qsortChk at h
+    split at h
+    · cases h; exact absurd hok (by dsimp only; decide)
+    · split at h
+      · split at h
+        · cases h; exact absurd hok (by dsimp only; decide)
+        · exact hrun o h
+      · split at h
+        · split at h
+          · cases h; exact absurd hok (by dsimp only; decide)
+          · exact hrun o h
+        · split at h
+          · cases h; exact absurd hok (by dsimp only; decide)
+          · exact hrun o h
+  have := hsorted i j hij (by omega)
+  subst hst
+  simp only [St.g] at this
+  rw [getElem!_pos o.st.a j (by omega), getElem!_pos o.st.a i hi] at this
+  exact this
+
+/-- non-vacuity: the three-way comparison of natural numbers is such a comparator -/
+example : (∀ x y : Nat, 0 ≤ (if x < y then (-1 : Int) else if x > y then 1 else 0) ↔
+      (if y < x then (-1 : Int) else if y > x then 1 else 0) ≤ 0) ∧
+    (∀ x y z : Nat, (if x < y then (-1 : Int) else if x > y then 1 else 0) ≤ 0 →
+      (if y < z then (-1 : Int) else if y > z then 1 else 0) ≤ 0 → (if x < z then (-1 : Int) else if x > z then 1 else 0) ≤ 0) := by
+  constructor
+  · intro x y; split <;> split <;> (try split) <;> (try split) <;> omega
+  · intro x y z; split <;> split <;> (try split) <;> (try split) <;> (try split) <;> (try split) <;> omega
+
+/-! ## the byte-level `cycle` (rotation through `tmp[256]` in chunks) is the element rotation the sort model uses -/
+
+/-- `cycle(width, ar, n)` of the C on bytes = the rotation of whole elements, for EVERY width (also > 256 and not a multiple
+    of 256; `width = 0` included), every element count and EVERY list of positions inside the array (any length, repeated
+    positions allowed), `fuel` = any bound ≥ the number of 256-byte chunks: the byte program returns, the memory keeps its
+    size, and cutting the new memory into `w`-byte elements gives exactly what the element rotation `cycleElems` (= `cycle`
+    without the `ar[]` capacity check, `cycle_eq_cycleElems`) computes on the old elements -/
+theorem cycleBytes_is_cycle (w n : Nat) (mem : Array UInt8) (hm : mem.size = n * w) (ar : List Nat) (har : ∀ x ∈ ar, x < n)
+    (fuel : Nat) (hf : w ≤ 256 * fuel) :
+    ∃ mem', cycleBytes fuel mem w (ar.map (· * w)) = .ok mem' ∧ mem'.size = n * w ∧
+      cycleElems (elems mem w n) ar = .ok (elems mem' w n) :=
+  cycleBytes_eq_cycle w n mem hm ar har fuel hf
+
+/-- the same against the sort's own `cycle` (at most 112 positions, the capacity of `ar[]` next to `tmp`) -/
+theorem cycleBytes_is_cycle_st (w n : Nat) (mem : Array UInt8) (hm : mem.size = n * w) (ar : List Nat) (har : ∀ x ∈ ar, x < n)
+    (hlen : ar.length ≤ 112) (fuel : Nat) (hf : w ≤ 256 * fuel) (s : St (Array UInt8)) (hs : s.a = elems mem w n) :
+    ∃ mem', cycleBytes fuel mem w (ar.map (· * w)) = .ok mem' ∧ mem'.size = n * w ∧
+      cycle s ar = .ok { s with a := elems mem' w n } :=
+  cycleBytes_eq_cycle' w n mem hm ar har hlen fuel hf s hs
+
+/-- a position outside the array among at least two positions: both programs fault (the payloads differ: byte address vs
+    element index) -/
+theorem cycleBytes_fault_iff (w n : Nat) (hw : 0 < w) (mem : Array UInt8) (hm : mem.size = n * w) (ar : List Nat)
+    (hlen : 2 ≤ ar.length) (hbad : ∃ z ∈ ar, n ≤ z) (fuel : Nat) (hf : w ≤ 256 * fuel) :
+    (∃ e, cycleBytes fuel mem w (ar.map (· * w)) = .error e) ∧ (∃ e, cycleElems (elems mem w n) ar = .error e) :=
+  cycle_fault w n hw mem hm ar hlen hbad fuel hf
+
+/-- non-vacuity: width 300 (chunks of 256 and 44 bytes), 3 elements, positions 2, 0, 1, fuel 2 -/
+example : (Array.ofFn (n := 900) fun i => i.val.toUInt8).size = 3 * 300 ∧ (∀ x ∈ [2, 0, 1], x < 3) ∧ 300 ≤ 256 * 2 := by
+  refine ⟨by simp, by decide, by decide⟩
 
 /-! ## entry checks of `_qsort_s_chk` (doc comment: ESNULLP / ESLEMAX / ESNOSPC) -/
 
